@@ -134,8 +134,9 @@ def run(ctx):
         for _ in range(ctx.budget(10, 60)):
             c = L.gen_case(ctx.rng, present, nmax=nmax, force=dict(kind="dense"))
             c["kind"] = "identity"; c["cplx"] = False; c["parts"] = []
-            c["v"] = L.enc(L.dec(c["v"]).real); c["grades"] = [1] * len(c["grades"])
-            gone_region.append(c)
+            c["v"] = L.enc(L.dec(c["v"]).real); c["grades"] = [1] * len(c["grades"]); c["start"] = "identity_op"
+            if c["tol"] >= 1e-9:
+                cases.append(c)
     # mixed batches: one element exhausts its Krylov space early, the others are generic (either order), max_iters < n.
     # Region of lanczos_batch_shared_stop: used whenever the probe says the flag is gone
     mixed = [L.gen_mixed_batch(ctx.rng, nmax=min(nmax, 10)) for _ in range(ctx.budget(40, 240))]
@@ -150,6 +151,7 @@ def run(ctx):
         if not L.in_avoided_region(c, present):
             big.append(c)
 
+    rfix = "lanczos_reltol_first_step" not in present       # model variant: repaired stopping test when the flag is gone
     obs = [L.run_impl(c) for c in cases]
     mism = []
     # the aliasing rule of the model (l_alias = true) against the implementation on the flag's own witness
@@ -159,14 +161,14 @@ def run(ctx):
                   v=L.enc(np.array([[1., 1., 1.]])), max_iters=3, tol=1e-7, entry="lanczos")
         wo = L.run_impl(wc)
         if wo.get("ok") and wo.get("alias"):
-            wcodes, werr, _ = eval_cases("c14_wit", [L.coq_case(wc, wo, True)], fn="codes_plain")
+            wcodes, werr, _ = eval_cases("c14_wit", [L.coq_case(wc, wo, True, rfix)], fn="codes_plain")
             alias_wit = 1
             if werr or wcodes:
                 mism.append(dict(oracle_fail=False, case=wc, got={k: wo.get(k) for k in ("k", "off", "diag", "Q")},
                                  model_disagrees="the model's aliasing rule no longer reproduces the implementation on the flag's witness",
                                  harness_error=werr, model_code=(wcodes or {}).get(0)))
     idx = [i for i, o in enumerate(obs) if o.get("ok")]
-    terms = [L.coq_case(cases[i], obs[i], "lanczos_alias_identity" in present) for i in idx]
+    terms = [L.coq_case(cases[i], obs[i], "lanczos_alias_identity" in present, rfix) for i in idx]
     codes, err, maxdiff = eval_cases("c14", terms)
     if err:
         mism.append(dict(oracle_fail=False, harness_error=err))
@@ -191,7 +193,7 @@ def run(ctx):
             if bad:
                 mism.append(dict(oracle_fail=True, case=c, got={k: o.get(k) for k in ("ok", "err", "k", "shapes", "off", "diag")}, failed_clauses=bad))
             if o.get("ok"):
-                for b, t in enumerate(L.coq_elem_cases(c, o, "lanczos_alias_identity" in present)):
+                for b, t in enumerate(L.coq_elem_cases(c, o, "lanczos_alias_identity" in present, rfix)):
                     eterms.append(t); owner.append((ci, b))
         ecodes, eerr, _ = eval_cases("c14_elem", eterms, fn="codes_elem")
         elem_compared = len(eterms)
@@ -231,7 +233,7 @@ def run(ctx):
         samples=[dict(kind=c["kind"], n=c["n"], cplx=c["cplx"], start=c["start"], batch=c["batch"], max_iters=c["max_iters"], tol=c["tol"], entry=c["entry"],
                       v=c["v"], parts=c["parts"]) for c in cases[:2]],
         mismatches=mism, findings=fnd,
-        extra=dict(compared_in_coq=len(idx) + alias_wit, alias_witness_compared=alias_wit, max_model_impl_difference=maxdiff, tolerance=1e-9, near_tie=hist.get(1, 0), noise_amplified_skipped=hist.get(2, 0), agree=hist.get(0, 0),
+        extra=dict(compared_in_coq=len(idx) + alias_wit, model_stopping_test=("repaired" if rfix else "pinned"), alias_witness_compared=alias_wit, max_model_impl_difference=maxdiff, tolerance=1e-9, near_tie=hist.get(1, 0), noise_amplified_skipped=hist.get(2, 0), agree=hist.get(0, 0),
                    kind_histogram=kh, start_histogram=sh, max_iters_vs_n=mh, exit_histogram=eh,
                    complex_cases=sum(1 for c in cases if c["cplx"]), batched_cases=sum(1 for c in cases if c["batch"]),
                    avoided_regions=avoided, mixed_batches_used=len(mixed), batch_elements_vs_single_start=elem_compared, defect_free_region_cases=len(gone_region), large_oracle_only=len(big),
@@ -257,7 +259,7 @@ def replay(ctx, payload):
         bad = L.oracle(c, o, check_span=c["n"] <= 64)
         cd = None
         if o.get("ok") and c["n"] <= 40:
-            codes, err, _ = eval_cases("c14_replay", [L.coq_case(c, o, "lanczos_alias_identity" in present)])
+            codes, err, _ = eval_cases("c14_replay", [L.coq_case(c, o, "lanczos_alias_identity" in present, "lanczos_reltol_first_step" not in present)])
             cd = err or (codes or {}).get(0, 0)
         print(f"replay C14: oracle failed clauses={bad} model comparison code={cd}")
         if bad or (isinstance(cd, int) and cd >= 3) or isinstance(cd, str):
